@@ -290,5 +290,5 @@ def was_modified_semantics(prog):
     wm = prog.find(r"^(dedupe::)?was_modified$")
     files = [Lazy("f%d" % i, "dedupe::PathAndMetadata") for i in range(2)]
     mem = {"fl": ListV(files, "Vec")}
-    paths = eng.run(wm, args=[Ref("fl", (), False), None, None], mem=mem)
+    paths = eng.run(wm, args=[Ref("fl", (), False), Lazy("after", wm.args[1][1]), None], mem=mem)
     return eng, paths
